@@ -6,11 +6,14 @@
      - under forkers < 1/3: decisions are unique, the voted root is unique (the BFT core);
      - the reference is a function of the event SET: two parents-first orders of the same events
        give the same blocks (so "the reference's output" is well defined).
-   C10_full (impl = reference) is the refinement obligation [impl_refines_spec] for the line-by-line
-   model of abft (owned by another worker); it is tested on every generated scenario. *)
+     - its forkless cause is FcSpec.fc_spec (composes with C05), its decisions are exactly the rule-level
+       statement (C10_decide_iff).
+   NOT proved: C10_full (model of the implementation = reference), i.e. [impl_refines_spec] for
+   model/AbftRun.v; it is tested on every generated scenario (implementation-level claim: test only). *)
 From Coq Require Import NArith List.
 From LV Require Import model.VecIndex lib.WSumBft spec.ElectionSpec proofs.BftCore proofs.BftElection
-  proofs.BftMono proofs.BftGraph proofs.BftMain proofs.BftRun proofs.BftProps.
+  proofs.BftMono proofs.BftGraph proofs.BftMain proofs.BftRun proofs.BftFcSpec proofs.BftAccept proofs.BftProps.
+From LV Require Import spec.FcSpec.
 Import ListNotations.
 Local Open Scope N_scope.
 
@@ -69,10 +72,36 @@ Theorem C10_reference_order_independent :
     few_forkers vals (table vals D2) -> snd (reference vals D1) = snd (reference vals D2).
 Proof. exact reference_same_set. Qed.
 
-(* ---- full statement, relative to the model of the implementation ---- *)
+(* ---- the rules, characterised: on the table of any valid run, the reference decides frame f0 with
+        Atropos a  iff  the rule-level statement holds (canonical order = pre ++ v :: post, every validator of
+        pre decided no by some root, v decided yes, a = the root of v that a first-round root forkless-causes) ---- *)
+Theorem C10_decide_iff :
+  forall vals T, wfT vals T -> few_forkers vals T -> forall f0 a,
+  decide node nd_id nd_cr nd_fr nd_spf (fc_n (map snd vals) (quorum_of (map snd vals))) (map snd vals)
+         (quorum_of (map snd vals)) (canon_order vals) T f0 (max_frame node nd_fr T) = Atropos a <->
+  exists pre v post x, canon_order vals = pre ++ v :: post
+    /\ (forall u, In u pre -> exists k r,
+          decides node nd_cr nd_fr nd_spf (fc_n (map snd vals) (quorum_of (map snd vals))) (map snd vals)
+                  (quorum_of (map snd vals)) T f0 k r u false)
+    /\ (exists k r,
+          decides node nd_cr nd_fr nd_spf (fc_n (map snd vals) (quorum_of (map snd vals))) (map snd vals)
+                  (quorum_of (map snd vals)) T f0 k r v true)
+    /\ voted_root node nd_cr nd_fr nd_spf (fc_n (map snd vals) (quorum_of (map snd vals))) T f0 v = Some x
+    /\ nd_id x = a.
+Proof. exact ref_decide_iff. Qed.
+
+(* ---- graph-based forkless cause: the relation used by the reference IS FcSpec.fc_spec (the graph
+        definition that C05 proves the vector index to compute) on the event map of the run ---- *)
+Theorem C10_fc_is_graph_fc :
+  forall vals T Dr a b, wfTD vals T Dr -> In a T -> In b T ->
+    fc_n (map snd vals) (quorum_of (map snd vals)) a b =
+    fc_spec (map snd vals) (quorum_of (map snd vals)) (length vals) (E_of Dr) (nd_id a) (nd_id b).
+Proof. exact fcn_is_fc_spec. Qed.
+
+(* ---- full statement for a model `run` of the implementation: NOT proved (it is the refinement
+        obligation impl_refines_spec for model/AbftRun.v, the L1 invariant of DESIGN 5 C10); it is what the
+        correspondence tests on every generated scenario ---- *)
 Definition C10_full : impl_model -> Prop := BftProps.C10_full.
-Theorem C10_full_is_refinement : forall run, impl_refines_spec run -> C10_full run.
-Proof. intros run H. exact H. Qed.
 
 (* non-vacuity: a generated DAG (4 validators, 48 events, one forking validator) is a valid run,
    decides two blocks, the second one names the forker; a reordering of it is accepted as well *)
@@ -87,4 +116,5 @@ Print Assumptions C10_decision_unique.
 Print Assumptions C10_voted_root_unique.
 Print Assumptions C10_accepted_run_wf.
 Print Assumptions C10_reference_order_independent.
-Print Assumptions C10_full_is_refinement.
+Print Assumptions C10_decide_iff.
+Print Assumptions C10_fc_is_graph_fc.
